@@ -1,0 +1,14 @@
+//go:build verif
+
+// Contracts for bit flags (read as text by /verif's govc; comment-only).
+
+package bit
+
+//@ pure func (f FlagPos) Get(b byte) bool
+//@ pure func (f FlagPos) Set(b byte, value bool) byte
+
+//@ lemma flagSetGet(f FlagPos, g FlagPos, b byte, v bool)
+//@   arith bv
+//@   requires 0 <= f && f < 8 && 0 <= g && g < 8
+//@   ensures f.Get(f.Set(b, v)) == v
+//@   ensures f != g ==> g.Get(f.Set(b, v)) == g.Get(b)
